@@ -1054,6 +1054,14 @@ class Model:
                         # Don't do anything for now, we only eliminate alg_states
                         pass
 
+                    elif (
+                        self.alias_relation.canonical_signed(alg_state.name())[0]
+                        == self.alias_relation.canonical_signed(other_state.name())[0]
+                    ):
+                        # Already aliases of each other, so this equation is redundant
+                        # or says that both are zero. Keep it.
+                        pass
+
                     else:
                         # Eliminate alg_state by aliasing it to other_state
                         if negative_alias:
